@@ -119,7 +119,7 @@ func (ia *IngressAnalyzer) mapServiceToPeers(svc *corev1.Service) error {
 // getServicePeers given a service return its selected peers
 func (ia *IngressAnalyzer) getServiceSelectedPeers(svc *corev1.Service) ([]eval.Peer, error) {
 	svcStr := types.NamespacedName{Name: svc.Name, Namespace: svc.Namespace}.String()
-	if svc.Spec.Selector == nil {
+	if len(svc.Spec.Selector) == 0 { // no selector, or an empty one: the service has no pods of its own (endpoints managed externally)
 		ia.logWarning("Ignoring " + parser.Service + whiteSpace + svcStr + colon + missingSelectorWarning)
 		return nil, nil
 	}
